@@ -2,6 +2,7 @@ use crate::engine::Ctx;
 
 pub mod c01;
 pub mod c03;
+pub mod c16;
 pub mod c18;
 pub mod common;
 #[cfg(not(pv_core))]
@@ -18,6 +19,7 @@ pub fn run(ctx: &mut Ctx) -> bool {
     match ctx.id.as_str() {
         "C01" => c01::run(ctx),
         "C03" => c03::run(ctx),
+        "C16" => c16::run(ctx),
         "C18" => c18::run(ctx),
         #[cfg(not(pv_core))]
         "C12" => c12::run(ctx),
